@@ -6,8 +6,10 @@ import (
 	"encoding/binary"
 	"fmt"
 	"hash"
+	"hash/fnv"
 	"strconv"
 	"strings"
+	"unsafe"
 
 	"github.com/consensys/gnark-crypto/accumulator/merkletree"
 	"github.com/consensys/gnark-crypto/field/koalabear/vortex"
@@ -19,6 +21,13 @@ import (
 //   C16 acct sha256 <n> <i> <seed> <kind> <a>     -> verdict after one tampering            (Lean: symbolic hash)
 //   C16 accd sha256 <i|x> P:<leaf> S:<h>:<l,l,..> R:<seg>:<bytes> ... -> per-op status, Prove/Root, equal-to-flat flag
 //   C16 vx <n> <i> <pattern> <seed> <kind> <a>    -> Open status + Verify verdict (Poseidon2) (Lean: symbolic hash)
+
+// Capacity independence (values, not capacities, determine every answer): every slice handed to the library is, depending
+// on a mode derived from the op line (0 plain make/append, 1 cap == len, 2 cap = next power of two, 3 larger), a sub-slice
+// of a larger backing array whose bytes before the slice and between len and cap are poisoned with non-zero data; after
+// the op the backing arrays are compared with their snapshots: the library must neither read (answer changes: caught by
+// the model / by the reference build) nor write (`wrote-caller-memory`) outside [0,len). Vortex: BuildMerkleTree on the
+// poisoned sub-slice must give exactly the Levels of the tree built from a fresh exact copy (`cap-dependent:<mode>`).
 
 func init() {
 	executors["C16"] = execC16
@@ -59,9 +68,9 @@ func c16ProofHex(ps [][]byte) string {
 	return strings.Join(s, ",")
 }
 
-func c16Prove(h hash.Hash, t *merkletree.Tree) string {
+func c16Prove(h hash.Hash, t *merkletree.Tree, p *c16Pool) string {
 	root, ps, pi, nl := t.Prove()
-	v := merkletree.VerifyProof(h, root, ps, pi, nl)
+	v := merkletree.VerifyProof(h, p.sub(root), p.set(ps), pi, nl)
 	return fmt.Sprintf("%s %x %s %s", c16RootHex(root), nl, c16ProofHex(ps), boolStr(v))
 }
 
@@ -82,6 +91,119 @@ func c16I(s string) int {
 	return v
 }
 
+// ---- poisoned backing arrays ---------------------------------------------------------------------------------------
+
+type c16Hdr struct {
+	p    *byte
+	l, c int
+}
+
+type c16Pool struct {
+	mode   int
+	bufs   [][]byte
+	snaps  [][]byte
+	outers [][][]byte // full-capacity views of the outer proof-set slices
+	hdrs   [][]c16Hdr
+}
+
+func c16Mode(a []string) int {
+	h := fnv.New32a()
+	for _, x := range a {
+		h.Write([]byte(x))
+		h.Write([]byte{' '})
+	}
+	return int(h.Sum32()>>3) % 4
+}
+
+func c16Pow2(n int) int {
+	p := 1
+	for p < n {
+		p *= 2
+	}
+	return p
+}
+
+func c16SpareCap(mode, n int) int {
+	switch mode {
+	case 1:
+		return n
+	case 2:
+		if c := c16Pow2(n); c > n {
+			return c
+		}
+		return 2*n + 1
+	}
+	return 2*c16Pow2(n) + 3
+}
+
+// sub returns a slice equal to d (same bytes, same nil-ness) living inside a larger poisoned array
+func (p *c16Pool) sub(d []byte) []byte {
+	if p == nil || p.mode == 0 || d == nil {
+		return d
+	}
+	n := len(d)
+	c := c16SpareCap(p.mode, n)
+	buf := make([]byte, 3+c+5)
+	for i := range buf {
+		buf[i] = byte(0xa5^(i*7)) | 1
+	}
+	copy(buf[3:], d)
+	p.bufs = append(p.bufs, buf)
+	p.snaps = append(p.snaps, append([]byte{}, buf...))
+	return buf[3 : 3+n : 3+c]
+}
+
+// set: the outer slice has spare capacity too, filled with junk entries
+func (p *c16Pool) set(ps [][]byte) [][]byte {
+	if p == nil || p.mode == 0 || ps == nil {
+		return ps
+	}
+	n := len(ps)
+	c := c16SpareCap(p.mode, n)
+	outer := make([][]byte, c)
+	for i := range outer {
+		if i < n {
+			outer[i] = p.sub(ps[i])
+		} else {
+			outer[i] = p.sub(bytes.Repeat([]byte{byte(0x30 + i)}, 32))
+		}
+	}
+	hd := make([]c16Hdr, c)
+	for i, x := range outer {
+		hd[i] = c16Hdr{unsafe.SliceData(x), len(x), cap(x)}
+	}
+	p.outers = append(p.outers, outer)
+	p.hdrs = append(p.hdrs, hd)
+	return outer[:n:c]
+}
+
+// intact: nothing the library was handed (nor the memory around it) has been modified
+func (p *c16Pool) intact() bool {
+	if p == nil {
+		return true
+	}
+	for i := range p.bufs {
+		if !bytes.Equal(p.bufs[i], p.snaps[i]) {
+			return false
+		}
+	}
+	for i, o := range p.outers {
+		for j, x := range o {
+			if (c16Hdr{unsafe.SliceData(x), len(x), cap(x)}) != p.hdrs[i][j] {
+				return false
+			}
+		}
+	}
+	return true
+}
+
+func (p *c16Pool) done(res string) string {
+	if !p.intact() {
+		return fmt.Sprintf("wrote-caller-memory:mode%d", p.mode)
+	}
+	return res
+}
+
 func c16Sum(h hash.Hash, parts ...[]byte) []byte {
 	h.Reset()
 	for _, p := range parts {
@@ -98,11 +220,11 @@ func cloneSet(ps [][]byte) [][]byte {
 	return out
 }
 
-func execC16Tamper(h hash.Hash, n, i, seed uint64, kind string, a uint64) string {
+func execC16Tamper(h hash.Hash, n, i, seed uint64, kind string, a uint64, p *c16Pool) string {
 	t := merkletree.New(h)
 	t.SetIndex(i)
 	for j := uint64(0); j < n; j++ {
-		t.Push(c16Leaf(seed, j))
+		t.Push(p.sub(c16Leaf(seed, j)))
 	}
 	root, ps0, pi, nl := t.Prove()
 	root = append([]byte(nil), root...)
@@ -176,10 +298,10 @@ func execC16Tamper(h hash.Hash, n, i, seed uint64, kind string, a uint64) string
 	default:
 		return "bad-op"
 	}
-	return boolStr(merkletree.VerifyProof(h, root, ps, pi, nl))
+	return boolStr(merkletree.VerifyProof(h, p.sub(root), p.set(ps), pi, nl))
 }
 
-func execC16Decomp(h hash.Hash, idx string, ops []string) string {
+func execC16Decomp(h hash.Hash, idx string, ops []string, p *c16Pool) string {
 	t := merkletree.New(h)
 	flatT := merkletree.New(h)
 	if idx != "x" {
@@ -192,7 +314,7 @@ func execC16Decomp(h hash.Hash, idx string, ops []string) string {
 		switch {
 		case f[0] == "P" && len(f) == 2:
 			d := parseBytes(f[1])
-			t.Push(d)
+			t.Push(p.sub(d))
 			flatT.Push(append([]byte{}, d...))
 			outs = append(outs, "ok")
 		case f[0] == "S" && len(f) == 3:
@@ -209,7 +331,7 @@ func execC16Decomp(h hash.Hash, idx string, ops []string) string {
 				outs = append(outs, "bad-op")
 				continue
 			}
-			if err := t.PushSubTree(int(c16U(f[1])), r); err != nil {
+			if err := t.PushSubTree(int(c16U(f[1])), p.sub(r)); err != nil {
 				if strings.Contains(err.Error(), "shouldn't contain") {
 					outs = append(outs, "err:contains")
 				} else if strings.Contains(err.Error(), "larger than") {
@@ -230,7 +352,7 @@ func execC16Decomp(h hash.Hash, idx string, ops []string) string {
 				continue
 			}
 			b := parseBytes(f[2])
-			if err := t.ReadAll(bytes.NewReader(b), seg); err != nil {
+			if err := t.ReadAll(bytes.NewReader(p.sub(b)), seg); err != nil {
 				outs = append(outs, "err:other")
 				continue
 			}
@@ -250,7 +372,7 @@ func execC16Decomp(h hash.Hash, idx string, ops []string) string {
 		r, rf := t.Root(), flatT.Root()
 		outs = append(outs, c16RootHex(r), boolStr(bytes.Equal(r, rf) && (r == nil) == (rf == nil)))
 	} else {
-		a, b := c16Prove(h, t), c16Prove(h, flatT)
+		a, b := c16Prove(h, t, p), c16Prove(h, flatT, nil)
 		outs = append(outs, a, boolStr(a == b))
 	}
 	return join(outs)
@@ -280,19 +402,85 @@ func vxLeafID(pat string, j int) uint64 {
 	return uint64(j + 1)
 }
 
-func execC16Vx(n int, i int, pat string, seed uint64, kind string, a int) string {
+// vxBuildIn builds the tree from leaves living at pool[1:1+n] with the capacity of the mode, everything else poisoned
+func vxBuildIn(orig []vortex.Hash, seed uint64, mode int) (*vortex.MerkleTree, []vortex.Hash, string) {
+	n := len(orig)
+	c := c16SpareCap(mode, n)
+	pool := make([]vortex.Hash, 1+c+2)
+	poison := vxHashOf(seed^0x9e3779b97f4a7c15, 1000)
+	for j := range pool {
+		pool[j] = poison
+		pool[j][j%8].SetUint64(uint64(j) + 12345)
+	}
+	copy(pool[1:], orig)
+	snap := append([]vortex.Hash{}, pool...)
+	leaves := pool[1 : 1+n : 1+c]
+	mt := vortex.BuildMerkleTree(leaves)
+	for j := range pool {
+		if pool[j] != snap[j] {
+			if j >= 1 && j < 1+n {
+				return mt, leaves, "mutated-input"
+			}
+			return mt, leaves, fmt.Sprintf("wrote-caller-memory:mode%d", mode)
+		}
+	}
+	return mt, leaves, ""
+}
+
+var vxCache struct {
+	key  string
+	orig []vortex.Hash
+	ref  *vortex.MerkleTree
+}
+
+func vxSameLevels(a, b *vortex.MerkleTree) bool {
+	if len(a.Levels) != len(b.Levels) {
+		return false
+	}
+	for l := range a.Levels {
+		if len(a.Levels[l]) != len(b.Levels[l]) {
+			return false
+		}
+		for k := range a.Levels[l] {
+			if a.Levels[l][k] != b.Levels[l][k] {
+				return false
+			}
+		}
+	}
+	return true
+}
+
+func execC16Vx(n int, i int, pat string, seed uint64, kind string, a int, mode int) string {
 	if n <= 0 {
 		return "bad-op"
 	}
-	leaves := make([]vortex.Hash, n)
-	for j := range leaves {
-		leaves[j] = vxHashOf(seed, vxLeafID(pat, j))
+	// (the leaves and the reference tree of the last (n, pattern, seed) are kept: consecutive lines share them; both are
+	// only read afterwards)
+	key := fmt.Sprintf("%d %s %d", n, pat, seed)
+	if vxCache.key != key {
+		o := make([]vortex.Hash, n)
+		for j := range o {
+			o[j] = vxHashOf(seed, vxLeafID(pat, j))
+		}
+		vxCache.key, vxCache.orig = key, o
+		vxCache.ref = vortex.BuildMerkleTree(append(make([]vortex.Hash, 0, n), o...))
 	}
-	orig := append([]vortex.Hash{}, leaves...)
-	mt := vortex.BuildMerkleTree(leaves)
-	for j := range leaves {
-		if leaves[j] != orig[j] {
-			return "mutated-input"
+	orig, ref := vxCache.orig, vxCache.ref
+	// reference: a fresh exact allocation; then the same leaves as a sub-slice of a poisoned array (all three
+	// capacities on the honest line of every (n, i), the capacity drawn from the line otherwise)
+	var mt *vortex.MerkleTree
+	var leaves []vortex.Hash
+	modes := []int{mode}
+	if kind == "none" {
+		modes = []int{1 + mode%3, 1 + (mode+1)%3, mode}
+	}
+	for _, m := range modes {
+		var bad string
+		if mt, leaves, bad = vxBuildIn(orig, seed, m); bad != "" {
+			return bad
+		}
+		if !vxSameLevels(mt, ref) {
+			return fmt.Sprintf("cap-dependent:mode%d", m)
 		}
 	}
 	proof, err := mt.Open(i)
@@ -374,40 +562,42 @@ func execC16(a []string) string {
 			return "bad-op"
 		}
 		n, i, seed := c16U(a[2]), c16U(a[3]), c16U(a[4])
+		p := &c16Pool{mode: c16Mode(a)}
 		t := merkletree.New(h)
 		t.SetIndex(i)
 		for j := uint64(0); j < n; j++ {
-			t.Push(c16Leaf(seed, j))
+			t.Push(p.sub(c16Leaf(seed, j)))
 		}
-		return c16Prove(h, t)
+		return p.done(c16Prove(h, t, p))
 	case a[0] == "accroot" && len(a) == 4:
 		h := c16Hash(a[1])
 		if h == nil {
 			return "bad-op"
 		}
 		n, seed := c16U(a[2]), c16U(a[3])
-		var buf []byte // ReaderRoot over fixed 8-byte segments is not applicable (variable leaf sizes): plain pushes
-		_ = buf
+		p := &c16Pool{mode: 1 + c16Mode(a)%3} // ReaderRoot over fixed segments is not applicable (variable leaf sizes): plain pushes
 		t := merkletree.New(h)
 		for j := uint64(0); j < n; j++ {
-			t.Push(c16Leaf(seed, j))
+			t.Push(p.sub(c16Leaf(seed, j)))
 		}
 		r := c16RootHex(t.Root())
-		return r + " " + r
+		return p.done(r + " " + r)
 	case a[0] == "acct" && len(a) == 7:
 		h := c16Hash(a[1])
 		if h == nil {
 			return "bad-op"
 		}
-		return execC16Tamper(h, c16U(a[2]), c16U(a[3]), c16U(a[4]), a[5], c16U(a[6]))
+		p := &c16Pool{mode: c16Mode(a)}
+		return p.done(execC16Tamper(h, c16U(a[2]), c16U(a[3]), c16U(a[4]), a[5], c16U(a[6]), p))
 	case a[0] == "accd" && len(a) >= 3:
 		h := c16Hash(a[1])
 		if h == nil {
 			return "bad-op"
 		}
-		return execC16Decomp(h, a[2], a[3:])
+		p := &c16Pool{mode: c16Mode(a)}
+		return p.done(execC16Decomp(h, a[2], a[3:], p))
 	case a[0] == "vx" && len(a) == 7:
-		return execC16Vx(int(c16U(a[1])), c16I(a[2]), a[3], c16U(a[4]), a[5], c16I(a[6]))
+		return execC16Vx(int(c16U(a[1])), c16I(a[2]), a[3], c16U(a[4]), a[5], c16I(a[6]), 1+c16Mode(a)%3)
 	}
 	return "bad-op"
 }
